@@ -97,6 +97,8 @@ def gen_case(pyrng, present, nmax=12, force=None):
     c["start"] = start
     c["batch"] = batch
     c["grades"] = grades       # dimension of the Krylov space by construction (generic position assumed)
+    sc = max(np.abs(S).max(), 1e-300)
+    c["lam_ratio"] = min([1.0] + [float(np.linalg.norm(S @ v) / (np.linalg.norm(v) * sc)) for v, gr in zip(vs, grades) if gr <= 1])
     c["v"] = enc(np.stack(vs, 0))
     mi_choices = [1, 2, max(1, n - 1), n, n + 1, n + 3, int(g.integers(1, n + 4)), int(g.integers(1, n + 4))]
     c["max_iters"] = int(force.get("max_iters") or g.choice(mi_choices))
@@ -141,14 +143,15 @@ def gen_mixed_batch(pyrng, nmax=10):
     return c
 
 
-def coq_elem_cases(c, obs, capped=False):
+def coq_elem_cases(c, obs, capped=False, rfix=False, cfix=False):
     """one single-start Coq case per batch element (element b of the batched call against the run on v_b alone)"""
     S = dense_of(c)
     V = dec(c["v"])
     out = []
     for b in range(len(obs["Q"])):
         el = "(" + coq_mat(dec(obs["Q"][b])) + "," + coq_mat(dec(obs["H"][b])) + ")"
-        t = f"mk_acase {c['n']} {coq_mat(S)} {coq_mat(V[b:b + 1])} {c['max_iters']} {hexf(c['tol'])} [{el}]"
+        fl = ("true" if rfix else "false") + " " + ("true" if cfix else "false")
+        t = f"mk_acase {c['n']} {coq_mat(S)} {fl} {coq_mat(V[b:b + 1])} {c['max_iters']} {hexf(c['tol'])} [{el}]"
         out.append(f"cap_case ({t})" if capped else t)
     return out
 
@@ -157,7 +160,12 @@ def in_avoided_region(c, present):
     cap = min(c["max_iters"], c["n"])
     exact0 = c["kind"] == "diag" and c["start"] == "invariant"
     if min(c["grades"]) <= 1 and cap >= 2 and not (exact0 and c["tol"] > 0):
-        return "grade1"                                       # arnoldi_reltol_first_step
+        if "arnoldi_reltol_first_step" in present:
+            return "grade1"                                   # arnoldi_reltol_first_step
+        if c.get("lam_ratio", 1.0) < 1e-3:
+            return "null_vector_start"                        # A v ~ 0: the repaired test has no scale to compare with either (||A q_0|| ~ 0)
+        if c["tol"] < 1e-9:
+            return "tol_below_noise"
     if len(set(min(gr, cap) for gr in c["grades"])) > 1:
         return "batch_unequal"                                # arnoldi_batch_shared_stop
     if c["tol"] < 1e-9 and min(c["grades"]) < cap:
@@ -245,14 +253,15 @@ def run_impl(c):
     return obs
 
 
-def coq_case(c, obs, capped=False):
+def coq_case(c, obs, capped=False, rfix=False, cfix=False):
     """capped: compare with the repaired model variant arnoldi_batch_capped (probe says arnoldi_padding is gone)"""
     S = dense_of(c)
     V = dec(c["v"])
     outs = []
     for b in range(len(obs["Q"])):
         outs.append("(" + coq_mat(dec(obs["Q"][b])) + "," + coq_mat(dec(obs["H"][b])) + ")")
-    t = f"mk_acase {c['n']} {coq_mat(S)} {coq_mat(V)} {c['max_iters']} {hexf(c['tol'])} [" + ";".join(outs) + "]"
+    fl = ("true" if rfix else "false") + " " + ("true" if cfix else "false")
+    t = f"mk_acase {c['n']} {coq_mat(S)} {fl} {coq_mat(V)} {c['max_iters']} {hexf(c['tol'])} [" + ";".join(outs) + "]"
     return f"cap_case ({t})" if capped else t
 
 
@@ -344,8 +353,10 @@ def oracle(c, obs, present=frozenset()):
             bad.append(tag + "sub-diagonal not real non-negative")
         sd = sd.real
         # active part: leading columns whose sub-diagonal entry is clearly above rounding level
+        # a remainder of norm <= tol/2 is a breakdown for the repaired normalisation (zero column); for the pinned one see `clipped` below
+        live = max(1e-6 * scale, 0.0 if garbage_ok else c["tol"] / 2.0)
         a = 0
-        while a < m and sd[a] > 1e-6 * scale:
+        while a < m and sd[a] > live:
             a += 1
         ambiguous = a < m and sd[a] > 1e-11 * scale * math.sqrt(n)       # neither clearly alive nor clearly broken down
         # flag arnoldi_clip_garbage, second manifestation: the clip threshold tol/2 is absolute while the stopping test is
@@ -360,7 +371,7 @@ def oracle(c, obs, present=frozenset()):
         done = int(np.sum(np.abs(H).max(axis=0) > 0)) if m > 0 else 0
         # (tol is relative to the size of the first Krylov vector: H[1,0] in the pinned code, ||A q_0|| in the repaired one; either is accepted)
         aq0 = float(np.linalg.norm(S @ v) / np.linalg.norm(v))
-        if 1 <= done < cap and sd[done - 1] > 2.0 * c["tol"] * max(sd[0], aq0) + 1e-6 * scale:
+        if 1 <= done < cap and sd[done - 1] > max(2.0 * c["tol"] * max(sd[0], aq0), c["tol"] / 2.0) + 1e-6 * scale:
             bad.append(tag + f"only {done} of min(max_iters,n)={cap} Arnoldi steps although the last remainder is {sd[done - 1]:.3g} "
                              f"(H[1,0]={sd[0]:.3g}, tol={c['tol']}): truncated factorisation, A Q[:, :m] = Q H fails")
         # orthonormality of the columns whose sub-diagonal entry exceeds the tolerance
